@@ -18,6 +18,12 @@ PROPS = {
         "trusted": COMMON_TRUST + ["allocation and wall-clock bounds are measured on the real code by the harness (counting allocator, timer, watchdog); the model proves totality and panic-freedom only"],
         "assumptions": [],
     },
+    "C20": {
+        "modules": ["PrioProofs.Props.C20"],
+        "rule": "exhaustive for 2-bit inputs (every non-empty prefix set at every level x every history of length <= 2), every (current, last) pair for 3-bit inputs (quick: every 5th), sampled histories of length 2-4, refinement walks over 12-bit inputs with perturbed and reordered histories; constructor on every ordered list of <= 3 prefixes from a pool with duplicates / mixed lengths / empty prefix, lengths 65535..65537, random lists; non-trivial = all;",
+        "trusted": COMMON_TRUST + ["bitvec's Ord on bit slices (lexicographic, then length) as read in the vendored source"],
+        "assumptions": [],
+    },
     "C09": {
         "modules": ["PrioProofs.Props.C09"],
         "rule": "operand lattice (0,1,2,3,p-3..p-1,(p±1)/2,2^k,2^k±1,limb masks,R mod p) x itself, random and low-weight operands, every operand pair of the 8-bit instantiation; non-trivial = all (every case exercises the limb code);",
